@@ -22,7 +22,7 @@ import json,sys,re
 id=sys.argv[1]; d='/verif/seeded/'+id
 m=json.load(open(d+'/meta.json'))
 det=[]; exits={}
-for l in open(d+'/detection.txt'):
+for l in open(d+'/detection.txt', errors='replace'):
     mo=re.match(r'VIOLATION property=(C\d+) rule=(\S+) function=(\S+) construct="(.*?)" at',l)
     if mo: det.append('%s %s %s: %s'%(mo.group(1),mo.group(2),mo.group(3),mo.group(4)))
     mo=re.match(r'(C\d+) exit=(\d+)',l)
